@@ -7,6 +7,7 @@ EVERY valid state under every bound configuration (and that removing the articul
 import copy
 import json
 import multiprocessing as mp
+from harness.par import RobustPool
 import random
 
 from harness.common import Check, NPROC, chunks, write_ndjson
@@ -156,7 +157,7 @@ def run(tier, seed):
         rng = random.Random(seed)
         states = rng.sample(states, 2500)
     jobs = [(i, st, seed * 1000 + i) for i, st in enumerate(states)]
-    with mp.get_context("fork").Pool(NPROC) as pool:
+    with RobustPool(NPROC) as pool:
         outs = pool.map(explore_state, chunks(jobs, NPROC * 4))
     recs = [x for o in outs for x in o]
     # random walks on larger boards
@@ -175,7 +176,7 @@ def run(tier, seed):
         if not (minB * minS <= n <= maxB * maxS):
             continue
         wj.append((0, h, w, b, seed * 7919 + i, 25 if tier == "quick" else 60))
-    with mp.get_context("fork").Pool(NPROC) as pool:
+    with RobustPool(NPROC) as pool:
         wouts = pool.map(walk, chunks(wj, NPROC * 2))
     wrecs = [x for o in wouts for x in o]
     allrecs = recs + wrecs
